@@ -216,10 +216,15 @@ impl Request {
         if let Some(content_length) = headers.get(&HeaderType::ContentLength) {
             let content_length: usize =
                 content_length.parse().map_err(|_| RequestError::Request)?;
-            let mut content_buf: Vec<u8> = vec![0u8; content_length];
-            reader
-                .read_exact(&mut content_buf)
+            // Read at most `content_length` bytes, growing the buffer as they arrive rather than trusting the header
+            let mut content_buf: Vec<u8> = Vec::new();
+            (&mut reader)
+                .take(content_length as u64)
+                .read_to_end(&mut content_buf)
                 .map_err(|_| RequestError::Stream)?;
+            if content_buf.len() != content_length {
+                return Err(RequestError::Stream);
+            }
 
             Ok(Self {
                 method,
@@ -314,11 +319,16 @@ impl Request {
         if let Some(content_length) = headers.get(&HeaderType::ContentLength) {
             let content_length: usize =
                 content_length.parse().map_err(|_| RequestError::Request)?;
-            let mut content_buf: Vec<u8> = vec![0u8; content_length];
-            reader
-                .read_exact(&mut content_buf)
+            // Read at most `content_length` bytes, growing the buffer as they arrive rather than trusting the header
+            let mut content_buf: Vec<u8> = Vec::new();
+            (&mut reader)
+                .take(content_length as u64)
+                .read_to_end(&mut content_buf)
                 .await
                 .map_err(|_| RequestError::Stream)?;
+            if content_buf.len() != content_length {
+                return Err(RequestError::Stream);
+            }
 
             Ok(Self {
                 method,
